@@ -91,11 +91,16 @@ PA_COMP = clause(UPA, 'post:looks_through_the_partial', ['C19', 'C05', 'C06', 'C
 
                  '= _mask(autoforwards(par.func, par.args, {}), len(par.args), no hide flag, par.keywords or {}, par) for EVERY partial object, '
                  'with or without bound positionals; positionals are handed to discovery, keywords are not')
+UAM = '_autoforwards.autoforwards_method'
+AM_COMP = clause(UAM, 'post:discovers_through_the_function_with_the_receiver_first', ['C05', 'C06', 'C07', 'C19'], 'P',
+                 '= mask(autoforwards(method.__func__, (method.__self__,) + args, kwargs), 1) for EVERY bound method - whatever the truth value '
+                 'of the receiver, which comes first among the known positional arguments; UnknownForwards only for an unbound one '
+                 '(__self__ is None), when the inner discovery says so, or when the callee cannot take the receiver')
 UT = '_specifiers.forged_signature (termination)'
 T_REC = clause(UT, 'rt:cyclic_forwarding_graph_terminates', ['C07'], 'R',
                'runtime contract on two concrete programs: a function forwarding to itself, and a two-function cycle')
 D_GUARD = clause(UD, 'frame:guard_restored', ['C16', 'C13'], 'P')
-D_ATTR = clause(UD, 'raises:AttributeError_iff_computing', ['C16', 'C13'], 'P')
+D_ATTR = clause(UD, 'raises:AttributeError_iff_computing', ['C16', 'C13', 'C04'], 'P')
 
 DEF_SHAPES = [(0, 1, 1, 0, 1), (0, 1, 0, 0, 0), (0, 0, 0, 0, 1)]
 FUNCTION_NODES = ('FunctionDef', 'AsyncFunctionDef', 'Lambda')
@@ -579,9 +584,38 @@ def make_runner(mode, shape=DEF_SHAPES[0], node='FunctionDef', kind='function', 
                 env['second'] = (r2.outcome, list(log))
                 del log[:]
                 log.extend(env['first_log'])
+        elif mode == 'af_method':
+            recv = new_obj('receiver', 'instance')
+            recv.truthy = z3.Bool('receiver_is_truthy')       # a container-like receiver may be empty
+            func = new_obj('method_function')
+            unbound = ctx.decide(z3.Bool('method___self___is_None'))
+            meth = new_obj('bound_method', 'method')
+            meth.defaults['__self__'] = None if unbound else recv
+            meth.defaults['__func__'] = func
+            known = (Opaque('a positional argument already known to discovery'),) if ctx.decide(z3.Bool('one_positional_argument_known')) else ()
+            kws = SymDict()
+            inner_sig = Opaque('autoforwards(method.__func__, (self,) + args, kwargs)')
+            log = env['log'] = []
+            env.update(recv=recv, func=func, unbound=unbound, known=known, kws=kws, inner_sig=inner_sig)
+
+            def af(interp_, clo, a, kw):
+                log.append(('autoforwards', list(a), list(kw)))
+                if ctx.decide(ctx.fresh('inner_unknown', z3.BoolSort())):
+                    raise PyExc(UF_cls, ())
+                return inner_sig
+            I.call_hooks['_autoforwards:autoforwards'] = af
+
+            def mk(interp_, clo, a, kw):
+                log.append(('mask', list(a), list(kw)))
+                if ctx.decide(ctx.fresh('mask_impossible', z3.BoolSort())):
+                    raise PyExc(ValueError, ('Signature cannot be passed 1 arguments',))
+                return Opaque('masked')
+            I.call_hooks['_signatures:mask'] = mk
+            harness.run_unit(I, ma.ns['autoforwards_method'], [meth, known, kws], [], r)
         elif mode == 'as_forged':
             spm = I.module('sigtools.specifiers')
             inst = new_obj('instance', 'instance')
+            inst.truthy = z3.Bool('instance_is_truthy')      # an instance of a user class: it may define __bool__ / __len__
             owner = new_obj('owner', 'instance')
             desc = I.instantiate(spm.ns['_AsForged'], [], [])
             # the descriptor protocol: accessed on an instance (instance, type(instance)) or on the class (None, class)
@@ -824,6 +858,22 @@ def vcs(env, want):
                 mk2 = [e for e in log2 if e[0] == '_mask']
                 ok2 = oc2 != 'return' or (len(mk2) == 1 and mk2[0][1][0] is env['inner_sig2'])
                 out.append(VC(PA_COMP.full + ':asked_again_uses_the_current_discovery', [], z3.BoolVal(bool(ok2)), PA_COMP.props))
+    elif mode == 'af_method':
+        if on(AM_COMP):
+            log = env['log']
+            afc = [e for e in log if e[0] == 'autoforwards']
+            mkc = [e for e in log if e[0] == 'mask']
+            if env['unbound']:
+                ok = r.outcome == 'raise' and z3.is_true(z3.simplify(is_unknown_forwards(I, r.exc))) and not afc
+            else:
+                ok = len(afc) == 1 and afc[0][1][0] is env['func'] and len(afc[0][1]) >= 2 and \
+                    len(tuple(afc[0][1][1])) == 1 + len(env['known']) and tuple(afc[0][1][1])[0] is env['recv'] and \
+                    all(a is b for a, b in zip(tuple(afc[0][1][1])[1:], env['known'])) and (len(afc[0][1]) < 3 or afc[0][1][2] is env['kws'])
+                if r.outcome == 'return':
+                    ok = ok and len(mkc) == 1 and mkc[0][1][0] is env['inner_sig'] and mkc[0][1][1] == 1
+                else:
+                    ok = ok and z3.is_true(z3.simplify(is_unknown_forwards(I, r.exc)))
+            out.append(VC(AM_COMP.full, [], z3.BoolVal(bool(ok)), AM_COMP.props))
     elif mode == 'as_forged':
         desc, inst = env['desc'], env['inst']
         now_in = inst in desc._d['currently_computing']
